@@ -24,7 +24,7 @@ ASSUMPTIONS = ["(a) restart limit is a symbolic integer in [0, 5] or None; at ev
 BOUNDS = {"quick": "(a) <= 3 runs per start, 2 starts of the same actor, 1 or 2 await points in the run logic; (b) 2 tasks; run() with 2 actors",
           "thorough": "(a) <= 4 runs, 2 await points; (b) 3 tasks"}
 OUTSIDE = "exceptions raised by the run logic while it is being cancelled; thread-safety; actors started from other actors"
-BUDGET = {"quick": 300, "thorough": 1500}
+BUDGET = {"quick": 300, "thorough": 900}
 LOG = []
 
 
